@@ -12,6 +12,7 @@ from symex import stubs
 from symex.ob import (eq, ne, le, lt, ge, gt, And, Or, Not, Implies, Iff, const, ite, absv, maxv, minv, R,
                       sumv, isinf, veq, CBool)
 from harness import solverlib as L
+from symex import ob as _ob
 
 PROPERTY = 'C14'
 LEVEL = 'model_checking'
@@ -62,6 +63,7 @@ def condition(line, n, locals_=None):
 
     def h(ctx):
         import mystic.symbolic as ms
+        _ob.RTOL = 0.0      # tolerance bands are 1e-15 wide: a replayed counterexample is compared exactly
         loc = dict(locals_) if locals_ else None
         conds = ms.generate_conditions(text, nvars=n, locals=loc)
         conds = [c for c in L_flat(conds)]
@@ -130,6 +132,7 @@ def penalty(lines, n, ptype, sym_k):
     def h(ctx):
         import mystic.symbolic as ms
         import mystic.penalty as mp
+        _ob.RTOL = 1e-9
         conds = ms.generate_conditions(text, nvars=n)
         kw = {}
         if sym_k:
@@ -144,18 +147,20 @@ def penalty(lines, n, ptype, sym_k):
             pf = ms.generate_penalty(conds, getattr(mp, ptype), **kw)
         x = ctx.reals('x', n)
         out = pf(list(x))
-        terms, sats = [], []
+        _ob.RTOL = 0.0          # feasibility verdicts are compared exactly in replay (tolerance bands are 1e-15 wide) ...
+        sats = [violation(l, x)[0] for l in lines]
+        obs = [('zero-iff-every-line-satisfied', Iff(eq(out, 0), And(*sats))), ('positive-otherwise', Implies(Not(And(*sats)), gt(out, 0))),
+               ('non-negative', ge(out, 0))]
+        _ob.RTOL = 1e-9         # ... the value of the sum up to rounding
+        terms = []
         for l in lines:
             sat, mag, kind = violation(l, x)
-            sats.append(sat)
             if ptype == 'default':
                 terms.append(k * mag * mag if kind == 'eq' else R(2) * k * maxv(R(0), mag) * maxv(R(0), mag))
             elif ptype == 'linear_equality':
                 terms.append(k * absv(mag))
             elif ptype == 'linear_inequality':
                 terms.append(R(2) * k * maxv(R(0), mag))
-        obs = [('zero-iff-every-line-satisfied', Iff(eq(out, 0), And(*sats))), ('positive-otherwise', Implies(Not(And(*sats)), gt(out, 0))),
-               ('non-negative', ge(out, 0))]
         if ptype == 'default' or all(violation(l, x)[2] == ('eq' if ptype.endswith('_equality') else 'ineq') for l in lines):
             obs.append(('is-documented-sum-of-per-line-terms', eq(out, sumv(terms))))
         ctx.observe('penalty', out)
@@ -168,6 +173,7 @@ def constraint_zeroes_penalty(lines, n):
 
     def h(ctx):
         import mystic.symbolic as ms
+        _ob.RTOL = 0.0
         pf = ms.generate_penalty(ms.generate_conditions(text, nvars=n))
         cf = ms.generate_constraint(ms.generate_solvers(text, nvars=n))
         x = ctx.reals('x', n)
